@@ -1202,6 +1202,14 @@ impl PipeEngine {
             ctx.count_n("probe.unknown_members_injected", g.extras_placed.len() as u64);
             ctx.mark_nontrivial();
         }
+        if ctx.chance(1, 3) {
+            // history on this thread: the newer peer's own types (same names, more members) were
+            // deserialized here first, as in a process that serves both schema versions
+            let server = ctx.chance(1, 2);
+            let _ = guarded(|| de::<skewed::Tree>(mode, server, Source::Slice, &bytes, ReadPlan::default()));
+            ctx.count("probe.c05_newer_schema_read_on_this_thread_first");
+            ctx.log(|| format!("earlier on this thread: newer schema read by the {} deserializer", if server { "server" } else { "client" }));
+        }
         self.c05_check::<plain::Tree>(ctx, mode, &bytes, &expected, &["xa_first", "xm_middle", "xz_last", "xm\"mid\\dle\n"], has_extras, faults, "model::Tree");
     }
 
